@@ -177,6 +177,17 @@ Definition range_range (so : sortopt) (f : frame) (ks : list key) (ls le : nat) 
            end in
   match s, e with Some s, Some e => Some (s, e) | _, _ => None end.
 
+(* AggregateWindowExpr::aggregate_evaluate (whole partition): rows in order, last_range = the previous row's frame *)
+Fixpoint range_run (so : sortopt) (f : frame) (ks : list key) (ls le i fuel : nat) : list (option (nat * nat)) :=
+  match fuel with
+  | O => []
+  | S fu =>
+      match range_range so f ks ls le (length ks) i with
+      | Some (s, e) => Some (s, e) :: range_run so f ks s e (S i) fu
+      | None => [None]
+      end
+  end.
+
 (* ---- WindowFrameStateGroups *)
 Record gstate := { g_ends : list (key * nat); g_cur : nat }.
 Definition g_init : gstate := {| g_ends := []; g_cur := 0 |}.
